@@ -199,9 +199,18 @@ def gen_attr_ops(rng, depth, k):
             # a scope object that does not die in reverse order of construction (heap, other thread)
             out.append("scope drop %d" % rng.randrange(depth[0]))
             depth[0] -= 1
+        elif o < 0.63 and depth[0] > 0:
+            # a copy of a live scope object is made and dies at once: removeAttributeEntry( id of the original)
+            out.append("scope copydrop %d" % rng.randrange(depth[0]))
         elif o < 0.8:
             out.append("attr global %s %s" % (hx(rng.choice(NAMES)), hx(rng.choice(VALUES))))
-        elif o < 0.9:
+            depth[1] += 1
+        elif o < 0.84 and depth[1] > 0:
+            # the application removes an entry by the id addAttribute returned (possibly removed already)
+            out.append("attr removeentry %d" % rng.randrange(depth[1]))
+        elif o < 0.85:
+            out.append("attr removeunknown")
+        elif o < 0.92:
             out.append("attr remove " + hx(rng.choice(NAMES)))
         else:
             out.append("attr get " + hx(rng.choice(NAMES)))
@@ -213,7 +222,7 @@ def random_case(rng, cid):
     lines = ["def begin" + rng.choice(["", "", " null", " " + hx(rng.choice(SEPS))])]
     lines += gen_def_tokens(rng, fmts)
     lines.append("def end")
-    depth = [0]
+    depth = [0, 0]      # live scopes, addAttribute calls so far
     volatile = any(l.startswith("def field") and l.split(" ")[2] in
                    ("date", "time", "time_ms", "time_us", "date_time", "pid", "thread_id") for l in lines)
     for _ in range(rng.randint(1, 4)):
@@ -271,6 +280,7 @@ def scope_mix_case(rng, cid):
     lines = ["def begin " + hx("|")] + ["def attr " + hx(n) for n in names] + ["def end"]
     lines.append("msg text=%s attrs=-" % hx("t"))
     depth = 0
+    nglob = 0
     for _ in range(rng.randint(3, 12)):
         n = names[0] if rng.random() < 0.75 else names[1]
         o = rng.random()
@@ -280,11 +290,18 @@ def scope_mix_case(rng, cid):
         elif o < 0.5 and depth:
             lines.append("scope pop")
             depth -= 1
-        elif o < 0.6 and depth:
+        elif o < 0.58 and depth:
             lines.append("scope drop %d" % rng.randrange(depth))
             depth -= 1
-        elif o < 0.85:
+        elif o < 0.64 and depth:
+            lines.append("scope copydrop %d" % rng.randrange(depth))
+        elif o < 0.82:
             lines.append("attr global %s %s" % (hx(n), hx(rng.choice(VALUES))))
+            nglob += 1
+        elif o < 0.88 and nglob:
+            lines.append("attr removeentry %d" % rng.randrange(nglob))
+        elif o < 0.89:
+            lines.append("attr removeunknown")
         else:
             lines.append("attr remove " + hx(n))
         lines.append("attr get " + hx(names[0]))
@@ -336,6 +353,56 @@ def scope_exhaustive_cases():
     return cases
 
 
+def scope_id_exhaustive_cases():
+    """every history of <= 5 events over one name with removal by id: push, pop, permanent add, remove by name,
+    a copy of the newest / of the oldest live scope object dying, removeAttributeEntry of the id of the first /
+    of the latest addAttribute call; the lookup is observed after every event"""
+    evs = ["P", "p", "G", "R", "Cn", "Co", "Ef", "El"]
+    cases = []
+    n = hx("a")
+    k = 0
+    for length in range(1, 6):
+        for combo in itertools.product(evs, repeat=length):
+            if not any(e in ("Cn", "Co", "Ef", "El") for e in combo):
+                continue        # covered by scope_exhaustive_cases
+            depth, nglob, lines, ok, val = 0, 0, [], True, 0
+            for e in combo:
+                val += 1
+                if e == "P":
+                    lines.append("scope push %s %s" % (n, hx("s%d" % val)))
+                    depth += 1
+                elif e == "G":
+                    lines.append("attr global %s %s" % (n, hx("g%d" % val)))
+                    nglob += 1
+                elif e == "R":
+                    lines.append("attr remove " + n)
+                elif e == "p":
+                    if not depth:
+                        ok = False
+                        break
+                    lines.append("scope pop")
+                    depth -= 1
+                elif e in ("Cn", "Co"):
+                    if not depth or (e == "Co" and depth < 2):
+                        ok = False
+                        break
+                    lines.append("scope copydrop %d" % (0 if e == "Cn" else depth - 1))
+                else:
+                    if not nglob or (e == "Ef" and nglob < 2):
+                        ok = False
+                        break
+                    lines.append("attr removeentry %d" % (0 if e == "Ef" else nglob - 1))
+                lines.append("attr get " + n)
+            if ok:
+                while depth:
+                    lines.append("scope pop")
+                    depth -= 1
+                    lines.append("attr get " + n)
+                k += 1
+                cases.append(Case("si%d" % k, lines))
+    return cases
+
+
 EX_FIELDS = {
     "level": "def field level", "text": "def field text", "const": "def const " + hx("ab"),
     "attr": "def attr " + hx("a"), "date": "def field date", "line": "def field line",
@@ -382,6 +449,9 @@ def generate(prop, tier, seed, scale=1):
     yield "generated", cases
     yield "exhaustive scope histories <=5 events {push, pop, drop oldest, addAttribute, removeAttribute} on one name", \
         scope_exhaustive_cases()
+    yield "exhaustive scope histories <=5 events with removal by id {push, pop, addAttribute, removeAttribute, copy of " \
+          "newest/oldest live scope dies, removeAttributeEntry(id of first/latest addAttribute)} on one name", \
+        scope_id_exhaustive_cases()
     if tier == "quick":
         yield "exhaustive <=3 fields {level,text,const,attr} x width {0,7} x {right,left} x sep {none,'|'}", \
             exhaustive_cases(["level", "text", "const", "attr"], [0, 7], 3)
